@@ -242,10 +242,20 @@ def _classify(ctx, case):
         ctx.count("class:storage-mount-mismatch")
 
 
+def _n_init(ctx, stdout):
+    m = re.search(r"Finished computing initial states: \d+ states? generated, with (\d+) of them distinct", stdout)
+    if m is None:
+        m = re.search(r"Finished computing initial states: (\d+) distinct states? generated", stdout)
+    ctx.require(m is not None, "cannot read the number of initial states")
+    return int(m.group(1))
+
+
 def run(ctx):
-    ctx.rule = ("TLC enumerates every pair (a, b) of the bounded domain (cores/memory 0..3 quarter units; storage maps of up to "
-                "2 (thorough: 3 for a) entries over 3 mount points, keyed by mount point or by an aliasing key, sizes {0,1,3} "
-                "(thorough {0,1,2,3}) quarter units), checks the laws on it and emits the model's result of every operator; every "
+    ctx.rule = ("TLC enumerates every pair (a, b) of the bounded domain (family st: every pair of storage maps - quick: <=2 "
+                "entries each over 2 mount points, sizes {0,1,3} quarter units; thorough: 3 mount points, and up to 3 entries "
+                "for a with sizes {0,2} -, entries keyed by mount point or by an aliasing key; family cm: every cores/memory "
+                "quadruple in 0..2 (thorough 0..3) quarter units with small storage maps), checks the laws on it and emits the "
+                "model's result of every operator; every "
                 "pair is evaluated on the real Hardware/Storage classes: normalized, is_normalized, +, -, |, |=, (a+b)-b, "
                 "satisfies, Storage +,-,|; a pair is non-trivial when some storage key is aliased, a mount point occurs twice, "
                 "or an operator ends in a defined error")
@@ -256,15 +266,12 @@ def run(ctx):
              "sub-negative": lambda c: c["sub"][0] == "err" and c["substrict"],
              "aliased-satisfied": lambda c: _aliased(c["a"], c["b"]) and c["sat"] == ["ok", True] and len(c["b"][2]) > 1}
     for cfg in ctx.pick(["quick"], ["thorough1", "thorough2"]):
-        r = ctx.tlc("Hardware", "MC_Hardware", "MC_Hardware_%s.cfg" % cfg, timeout=3000)
+        # short runs: C1-only JIT halves the JVM's CPU time (measured); a local workaround through env=, tlc.py is untouched
+        env = {"JAVA_TOOL_OPTIONS": "-XX:TieredStopAtLevel=1"} if ctx.quick else {}
+        r = ctx.tlc("Hardware", "MC_Hardware", "MC_Hardware_%s.cfg" % cfg, env=env, timeout=3000)
         if not r.ok:
             ctx.require(False, "Hardware law %s fails in the model (specification error):\n%s" % (r.violated, r.stdout[-1500:]))
-        m = re.search(r"Finished computing initial states: (\d+) states? generated, with (\d+) of them distinct", r.stdout)
-        n_init = int(m.group(2)) if m else None
-        if m is None:
-            m = re.search(r"Finished computing initial states: (\d+) distinct states? generated", r.stdout)
-            n_init = int(m.group(1)) if m else None
-        ctx.require(n_init is not None, "cannot read the number of initial states")
+        n_init = _n_init(ctx, r.stdout)
         here = set()
         for m in re.finditer(r'^"\{.*\}"$', r.stdout, re.M):           # streamed: the output can be large
             try:
@@ -295,10 +302,14 @@ def run(ctx):
         r.stdout = ""
     for name in sorted(samples):
         ctx.sample(samples[name])
-    r3 = ctx.tlc("Hardware", "MC_Hardware3", "MC_Hardware3_%s.cfg" % ctx.tier, timeout=3000)
-    if not r3.ok:
-        ctx.require(False, "reservation law fails in the model (specification error): %s\n%s" % (r3.violated, r3.stdout[-1500:]))
-    ctx.require(r3.depth >= 2 and r3.generated > r3.distinct / 2, "reservation law is vacuous on the domain")
+    if not ctx.quick:        # the reservation law on triples (quick: only its pair instance, invariant ReservePairs)
+        r3 = ctx.tlc("Hardware", "MC_Hardware3", "MC_Hardware3_thorough.cfg", timeout=3000)
+        if not r3.ok:
+            ctx.require(False, "reservation law fails in the model (specification error): %s\n%s" % (r3.violated, r3.stdout[-1500:]))
+        n_res = r3.distinct - _n_init(ctx, r3.stdout)          # a triple has a successor iff the antecedent of the law holds
+        ctx.require(r3.depth >= 2 and n_res > 0, "reservation law is vacuous on the domain")
+        ctx.count("triples", r3.distinct - n_res)
+        ctx.count("triples_reservable", n_res)
     ctx.exhaustive = True
     cases = seen
     ctx.programs = len(cases)
